@@ -2,7 +2,11 @@
 use pyo3_stub_gen::derive::gen_stub_pyclass;
 
 use super::{Qubit, QuotedString};
-use crate::{expression::Expression, pickleable_new, quil::Quil};
+use crate::{
+    expression::{Expression, PrefixOperator},
+    pickleable_new,
+    quil::Quil,
+};
 
 #[derive(Clone, Debug, PartialEq, Eq, Hash)]
 #[cfg_attr(feature = "stubs", gen_stub_pyclass)]
@@ -52,6 +56,8 @@ impl Quil for Delay {
             && match &self.duration {
                 Expression::Infix(_) | Expression::FunctionCall(_) => true,
                 Expression::Number(value) => value.im != 0.0,
+                // a prefix plus prints nothing, so what follows it starts the duration
+                Expression::Prefix(prefix) => prefix.operator == PrefixOperator::Plus,
                 _ => false,
             };
         if group_duration {
